@@ -71,7 +71,7 @@ CLAIMS = {
              "listed as undecided in the evidence; element-wise equality of decoded lists is not decided.",
         note="Trusted: struct/bytearray/slice semantics as modelled; reference tables in spverif/pdus.py; str.encode/decode opaque and "
              "length-correct. Quick tier: 6 configuration cases; thorough: all 64.",
-        technique=TECH + "; finite case analysis over configuration flags and widths"),
+        technique=TECH + "; finite case analysis over configuration flags and widths; syntax-directed path dataflow for accumulator hand-over (D-KEEP)"),
     "C07": dict(
         text="Static analysis: the File Data PDU is constructed for every configuration case and segment-metadata variant (absent, "
              "present, present with zero octets); pack() is compared per bit with a reference layout from CCSDS 727.0-B-5 5.3, lengths "
@@ -235,8 +235,8 @@ EXTRA = {
     "C02": " Also: every too-short refusal of the decoder implies that the buffer is shorter than the declared packet (no well-formed packet is refused), also when its guards are merged through max()/min().",
     "C04": " Also: the reads made while the CFDP checksum is verified and while its error object is built are in bounds, only documented classes escape from that routine, and the stale-CRC sequences are analysed with one object per observed serialisation.",
     "C05": " Also: the decoder's too-short refusal is taken only for buffers shorter than the header the width codes give (a complete header is never refused). set_entity_ids with IDs of different widths and an out-of-range data-field length, applied to an existing header, store nothing on the path of the refusal.",
-    "C06": " Also: for every directive the mutated-versus-fresh setter sequences of C11 are run, so that the data-field length is compared with the packed octets after changes through setters; the Finished PDU is analysed for both condition codes whose fault location is not transmitted.",
-    "C08": " Also: second file name and filestore message of the filestore TLVs are located per action code and first-name length (offsets counted in octets); for a well-formed TLV of a foreign type no refusal other than the type-mismatch error precedes the type check; a complete TLV/LV (also with an empty value) is never refused as too short; equality of generic TLVs/LVs mentions type and value.",
+    "C06": " Also: for every directive the mutated-versus-fresh setter sequences of C11 are run, so that the data-field length is compared with the packed octets after changes through setters; the Finished PDU is analysed for both condition codes whose fault location is not transmitted. The setter sequences run under all four CRC / large-file flag combinations. Structural rule D-KEEP (path walk over the statement tree): a local accumulator that one normal exit returns or stores whole (decoded filestore responses, NAK segment requests, packed buffers) is handed on at every normal exit reachable after an append; this is a necessary condition only, element-wise equality of decoded lists stays undecided.",
+    "C08": " Also: second file name and filestore message of the filestore TLVs are located per action code and first-name length (offsets counted in octets); for a well-formed TLV of a foreign type no refusal other than the type-mismatch error precedes the type check; a complete TLV/LV (also with an empty value) is never refused as too short; equality of generic TLVs/LVs mentions type and value. Structural rule D-KEEP: no packed buffer or decoded list built in a local accumulator is dropped on one exit while another exit keeps it.",
     "C09": " Also: no decoder stores into an object created at module level (nothing is carried from one call to the next); the first iteration of every decoder loop is analysed from the real entry state, so its reads are decided exactly. Indexing a byte string that was copied from the input is a read like any other; loops whose test has a concretely bounded part are unrolled under the symbolic rest of the test (their reads are then decided instead of being declared undecided); the stream parser is analysed through its scan part, whatever its helpers are called.",
     "C10": " Also: for every decoder of a self-delimiting unit a normal return implies len(buffer) >= declared length (strict prefixes are refused); arguments of raised exceptions are analysed like other expressions; the first iteration of every loop is decided exactly. Indexing a byte string that was copied from the input is a read like any other (IndexError when the copy is shorter).",
     "C11": " Also: after each setter sequence the reported length equals the length of the packed stream; every setter whose recomputation can refuse the new value (12 listed setters) leaves the object unchanged on that path; the 16-bit data-field-length bound through which all recomputed PDU lengths are stored is checked.",
